@@ -20,6 +20,7 @@ size_t   g_j;  /* ghost index 2 */
 size_t   g_n;  /* ghost scalar (segmentation lemmas etc.) */
 uint8_t  g_b;  /* ghost byte tied to index g_k by a precondition equation */
 void    *g_p;  /* ghost pointer tied to index g_k by a precondition equation */
+void    *g_p3; /* third ghost pointer */
 void    *g_p2; /* second ghost pointer (tied to a pre-state pointer by a precondition equation) */
 uint64_t g_u64; /* ghost 64-bit word (precondition equation) */
 uint32_t g_u32; /* ghost word tied to a pre-state value by a precondition equation */
